@@ -92,6 +92,22 @@ impl VisitMut for Rw {
                 return;
             }
         }
+        // `-1.5` is a negation applied to a literal: fold it into one (negative) literal so that it stays
+        // usable in const / static initialisers (Neg for Sx is not a const fn)
+        if let Expr::Unary(syn::ExprUnary { op: syn::UnOp::Neg(_), expr, .. }) = e {
+            if let Expr::Lit(ExprLit { lit: Lit::Float(f), .. }) = &**expr {
+                if f.suffix() != "f64" {
+                    let root = self.root.clone();
+                    let mut digits = f.base10_digits().to_string();
+                    if digits.ends_with('.') {
+                        digits.push('0');
+                    }
+                    let lit = syn::LitFloat::new(&format!("{}f32", digits), f.span());
+                    *e = parse_quote!(#root::symnum::lit(-#lit));
+                    return;
+                }
+            }
+        }
         visit_mut::visit_expr_mut(self, e);
         let root = &self.root;
         match e {
